@@ -378,6 +378,7 @@ class PyCount(Val):
     invariant "stored counts are >= 1" is established by RefCount's own methods
     (proved on the real `append/extend/remove`)."""
     ty = TCountCls()
+    cls = "RefCount"
 
     def __init__(self, arr):
         self.arr = arr
@@ -471,22 +472,24 @@ class PyDDict(Val):
 class TMap(Ty):
     single = False
 
-    def __init__(self, valty=None):
+    def __init__(self, valty=None, cls=None):
         self.valty = valty or TV
+        self.cls = cls
 
     def fresh(self, hint="map"):
         return PyMap(FreshConst(z3.ArraySort(V, BoolS), hint + "_dom"),
                      FreshConst(z3.ArraySort(V, self.valty.sort()), hint + "_val"),
-                     self.valty)
+                     self.valty, self.cls)
 
     def __repr__(self):
         return f"Map[{self.valty}]"
 
 
 class PyMap(Val):
-    def __init__(self, dom, val, valty=None):
+    def __init__(self, dom, val, valty=None, cls=None):
         self.dom, self.val, self.valty = dom, val, valty or TV
-        self.ty = TMap(self.valty)
+        self.cls = cls
+        self.ty = TMap(self.valty, cls)
 
     @staticmethod
     def empty(valty=None):
@@ -517,14 +520,22 @@ class PyMap(Val):
 
     def py_setitem(self, cx, k, v):
         return PyMap(z3.Store(self.dom, _t(k), z3.BoolVal(True)),
-                     z3.Store(self.val, _t(k), _t(v)), self.valty)
+                     z3.Store(self.val, _t(k), _t(v)), self.valty, self.cls)
 
     def py_delitem(self, cx, k):
         cx.raise_if(z3.Not(self.has(k)), "KeyError")
-        return PyMap(z3.Store(self.dom, _t(k), z3.BoolVal(False)), self.val, self.valty)
+        return PyMap(z3.Store(self.dom, _t(k), z3.BoolVal(False)), self.val, self.valty, self.cls)
 
     def py_iter(self, cx):
         return enum_of_pred(lambda x: z3.Select(self.dom, x), "map")
+
+    def m_get(self, cx, k, default=None):
+        if default is None:
+            raise Unsupported("dict.get without default")
+        kt = _t(k)
+        if isinstance(default, (PyInt, PyBool, PyReal, PyObj)) and self.valty.sort() == default.t.sort():
+            return self.valty.wrap(z3.If(z3.Select(self.dom, kt), z3.Select(self.val, kt), default.t)), None
+        raise Unsupported("dict.get default type")
 
 
 # ---- list / tuple as sequences ------------------------------------------------
